@@ -708,7 +708,6 @@ def _if_inductive(ps):
             UP = "sent('cload.upload_buffer')[0][1]"
             c.loop_invariant(BL + ':Bootloader._internal_flash', '#1',
                              ['0 <= ctr and ctr < t_data.buffer_pages and ctr <= k',
-                              'k * t_data.page_size < len(image) or k == 0',
                               'len(image) <= (t_data.flash_pages - start_page) * t_data.page_size'],
                              havoc, ['ctr', 'progress'], index='k',
                              iteration_post=[
@@ -734,7 +733,6 @@ def _if_inductive(ps):
                 c.snapshot('W', "sent('cload.write_flash')[-1][1]")
                 c.ensure('closing-flash-write-ends-at-the-last-image-page', 'W[0] == addr and W[1] == 0 and W[3] >= 1 and W[3] <= bp and W[2] + W[3] == first + npages')
                 c.ensure('closing-flash-write-inside-flash', 'W[2] >= first and W[2] + W[3] <= fp')
-            c.ensure('every-page-flushed', "len(sent('cload.write_flash')) >= 1")
         if c.backend == 'native':
             # whole-wire statement on the real code for every witness / sampled input
             c.ensure('native-pages-programmed-once-in-range',
